@@ -16,7 +16,7 @@ from lib import refcodec as rc
 from lib.core import ShardResult
 
 LEVEL = 'fault_enumeration'
-RULE = ('configurations: entry {file.to_file, p8tool luafmt [--overwrite], p8tool build} x format {.p8, .p8.png} x '
+RULE = ('configurations: entry {file.to_file, p8tool luafmt [--overwrite], p8tool luamin, p8tool writep8, p8tool build} x format {.p8, .p8.png} x '
         'destination {absent, present} x Lua writer {echo, token minifier, formatter} (quick: 9 configurations, thorough: '
         'all 23); failure sources: k-th chunk of the Lua writer (all passes), k-th line/call of each of the 5 section '
         'encoders and the label, the PNG encoder call, k-th write on the stream handed to the format encoder, unparsable '
@@ -149,6 +149,9 @@ CODE = (b'-- title\n-- author\nfunction _init()\n x = 1\n if (x) y = 2\nend\nfun
         b'print("done") t = {1, 2, a = 3}\n')
 
 
+CLI_REWRITERS = ('luafmt', 'luamin', 'writep8')
+
+
 def sources_for(fmt):
     s = ['lua-writer', 'sanity', 'stream-write']
     s += ['section:' + n for n in ('gfx', 'gff', 'map', 'sfx', 'music')]
@@ -168,6 +171,13 @@ def configurations(tier):
     cfgs.append(('luafmt', 'p8', 'overwrite', 'format'))
     cfgs.append(('luafmt', 'png', 'absent', 'format'))
     cfgs.append(('luafmt', 'png', 'present', 'format'))
+    cfgs.append(('luafmt', 'p8', 'absent', 'format'))
+    cfgs.append(('luafmt', 'p8', 'present', 'format'))
+    # the other CLI commands that write carts (they write <name>_fmt.<ext> next to the input)
+    for cmd, w in (('writep8', 'echo'), ('luamin', 'minify')):
+        for fmt in ('p8', 'png'):
+            for dest in ('absent', 'present'):
+                cfgs.append((cmd, fmt, dest, w))
     for fmt in ('p8', 'png'):
         for dest in ('absent', 'present'):
             for w in ('echo', 'minify'):
@@ -176,6 +186,8 @@ def configurations(tier):
         keep = [('to_file', 'p8', 'present', 'format'), ('to_file', 'png', 'present', 'minify'),
                 ('to_file', 'p8', 'absent', 'minify'), ('to_file', 'png', 'absent', 'echo'),
                 ('luafmt', 'p8', 'overwrite', 'format'), ('luafmt', 'png', 'present', 'format'),
+                ('writep8', 'p8', 'present', 'echo'), ('writep8', 'p8', 'absent', 'echo'), ('writep8', 'png', 'present', 'echo'),
+                ('luamin', 'p8', 'present', 'minify'), ('luamin', 'png', 'absent', 'minify'),
                 ('build', 'p8', 'present', 'minify'), ('build', 'png', 'present', 'echo'), ('build', 'p8', 'absent', 'echo')]
         cfgs = [c for c in cfgs if c in keep]
     return cfgs
@@ -197,7 +209,7 @@ class Env(object):
         self.old = old_p8 if fmt == 'p8' else old_png
         if entry == 'to_file':
             self.dest = os.path.join(self.d, 'cart' + ext)
-        elif entry == 'luafmt':
+        elif entry in CLI_REWRITERS:
             self.src = os.path.join(self.d, 'in' + ext)
             src_bytes = c13.ref_p8(self.fills, CODE, label=carts.rot_region(0x2000, 3)) if fmt == 'p8' else \
                 c13.ref_png(self.fills, CODE, c13.label_rows())
@@ -242,8 +254,8 @@ class Env(object):
                 wargs = {'indentwidth': 2} if writer == 'format' else None
                 p8file.to_file(g, self.dest, lua_writer_cls=None if writer == 'echo' else wcls, lua_writer_args=wargs)
                 return False, None
-            if entry == 'luafmt':
-                args = ['luafmt'] + (['--overwrite'] if dest == 'overwrite' else []) + [self.src]
+            if entry in CLI_REWRITERS:
+                args = [entry] + (['--overwrite'] if dest == 'overwrite' else []) + [self.src]
                 rcode = tool.main(args)
                 return rcode != 0, rcode
             args = ['build', self.dest, '--lua', self.lua, '--gfx', self.gfxsrc]
